@@ -341,7 +341,6 @@ func (c *specCtx) localByName(name string) (specVal, bool) {
 		}
 	}
 	// heap-allocated locals (escaping) appear as Alloc instructions with Heap=true
-	var best ssa.Value
 	for _, b := range fn.Blocks {
 		if !(b == c.block || b.Dominates(c.block)) {
 			continue
@@ -357,13 +356,27 @@ func (c *specCtx) localByName(name string) (specVal, bool) {
 					return specVal{term: vc.readLoc(c.st, loc), typ: elem}, true
 				}
 			}
-			if d, ok := in.(*ssa.DebugRef); ok && !d.IsAddr {
+		}
+	}
+	// register locals: the reaching definition is the closest one on the dominator chain, either an
+	// assignment (DebugRef) or a phi carrying the variable's name
+	var best ssa.Value
+	for b := c.block; b != nil && best == nil; b = b.Idom() {
+		for i := len(b.Instrs) - 1; i >= 0 && best == nil; i-- {
+			switch d := b.Instrs[i].(type) {
+			case *ssa.DebugRef:
+				if d.IsAddr || b == c.block {
+					continue // values defined in the current block itself are not stable names
+				}
 				if id, ok := d.Expr.(*ast.Ident); ok && id.Name == name {
 					if _, bound := c.fr.env[d.X]; bound || isConstVal(d.X) {
-						if b == c.block {
-							continue // values defined in the header itself are not stable names
-						}
 						best = d.X
+					}
+				}
+			case *ssa.Phi:
+				if d.Comment == name {
+					if _, bound := c.fr.env[d]; bound {
+						best = d
 					}
 				}
 			}
